@@ -7,7 +7,8 @@ CLAIMED = {
     "C01": {
         "level": "Static decision (exact on finite tables, path-complete on the CFG) of the structure of recording and "
                  "inversion: exhaustive undo arms reading every old_* field, every persistent-state-writing operation "
-                 "records a diff on all normal paths. Necessary conditions of undo correctness, not value equality.",
+                 "records a diff on all normal paths, numeric record fields agree with the applied arguments, and replay arms pass the "
+                 "recorded field for every like-named parameter. Necessary conditions of undo correctness, not value equality.",
         "note": "Decides shape, not restored values (effect footprint of delete_rows vs what DeleteRows captures is a "
                 "runtime-extent question). Effects are type-based over-approximations. " + TRUST,
         "technique": "MIR arm/field-use tables over Diff + type-based effect summaries + CFG must-pass-through",
@@ -15,27 +16,31 @@ CLAIMED = {
     "C02": {
         "level": "Static decision of redo structure: exhaustive redo arms over all 46 Diff variants reading every "
                  "non-old field, exact stack-effect signature of History::{push,undo,redo}, who-may-write the stacks, "
-                 "sibling agreement of undo/redo arms.",
+                 "sibling agreement of undo/redo arms, replay arguments are the recorded fields, and recorded text that replay "
+                 "re-parses is language-independent (8 known findings: SetCellValue/SetArrayValue carry display-language text).",
         "note": "Does not decide that state-dependent replay (set_user_input, duplicate_sheet..) reproduces values. " + TRUST,
-        "technique": "MIR arm/field-use tables, effect-signature table of History, who-may-write over direct effects",
+        "technique": "MIR arm/field-use tables, effect-signature table of History, who-may-write over direct effects, interprocedural text provenance into the formula parser",
     },
     "C03": {
         "level": "Static decision of the replication plumbing: queue tags/order, replay dispatch, no echo from the "
-                 "replica path, writers of send_queue, every persistent mutation recorded (hence replicated).",
+                 "replica path, writers of send_queue, every persistent mutation recorded (hence replicated), replay arguments are the "
+                 "recorded fields, recorded text is language-independent (8 known findings, the display language being per-user state).",
         "note": "Equality of replica state for all histories is not decided; flush schedule independence follows from the "
                 "queue being an append-only Vec (argument in DESIGN.md). " + TRUST,
         "technique": "CFG dominance + effect summaries + who-may-write",
     },
     "C04": {
         "level": "Static decision of the ordering clause of atomicity: no error exit is CFG-reachable after "
-                 "push_diff_list in any fallible UserModel operation.",
+                 "push_diff_list in any fallible UserModel operation, and no explicit error is constructed after the first persistent "
+                 "write in the structural operations and in every editing entry point of Model/Worksheet/Styles.",
         "note": "Partial edits when a `?` fails inside a loop of mutations are not decided (value ranges). " + TRUST,
         "technique": "CFG reachability from push sites to `?`/Err exits, callee fallibility via call graph",
     },
     "C05": {
         "level": "Static decision of the evaluation-mark typestate: Evaluating is always followed by Evaluated before return, "
                  "the state lookup dominates the mark, the Evaluating arm is the only non-codec producer of Error::CIRC, "
-                 "restart clears sit inside the restart loop before phase-1 evaluation, writers of Model.cells/support.",
+                 "restart clears sit inside the restart loop before phase-1 evaluation, writers of Model.cells/support; the function "
+                 "implementations that clip whole-row/column ranges use the extent of the range's own sheet.",
         "note": "Does not decide that stored values equal the formulas' values. " + TRUST,
         "technique": "CFG must-pass-through and dominance + who-may-construct / who-may-write",
     },
@@ -49,8 +54,9 @@ CLAIMED = {
     "C07": {
         "level": "Static decision of the two shape-visible sources of nondeterminism: who may read clock/random sources, and that every "
                  "hash-map/set iteration reachable from evaluation, input, structural edits and (de)serialisation is order-insensitive "
-                 "by idiom or by a confirmed single-site reason.",
-        "note": "Convergence of the restart-based spill ordering and equality across reload are not decided. A new unclassified hash "
+                 "by idiom or by a confirmed reason keyed by function and collection; the stored form of a formula parses back to the "
+                 "same tree (PAREN cells of the internal printer; 2 known findings on right-nested additions).",
+        "note": "Convergence of the restart-based spill ordering is not decided. A new unclassified hash "
                 "iteration in reachable code is reported for triage (design 6). " + TRUST,
         "technique": "who-may-call over the call graph + iterator-chain consumer classification",
     },
@@ -68,13 +74,15 @@ CLAIMED = {
                  "definitions) is compared with the printer's wrap decision (derived by path interpretation of stringify, "
                  "reconstructing nested format templates); plus operator/error literal tables of printer and lexer/parsers.",
         "note": "Number and string literal round trip (to_excel_precision_str vs consume_number) is numeric and not decided; "
-                "separators are decided under C16/SEP. " + TRUST,
+                "separators (function arguments, joined LAMBDA lists, array rows/elements) are decided per locale by emitted value (SEP); "
+                "sheet-name quoting by the rule of C22. " + TRUST,
         "technique": "reaching-definitions over the recursive-descent parser + finite-domain path interpretation of the printer",
     },
     "C10": {
         "level": "Static decision of the storage discipline behind language/locale independence: typestate dataflow of the "
                  "parser configuration at every parse of stored text, English-only printers into stored fields, and the write "
-                 "footprint of set_language/set_locale from whole-program effect summaries.",
+                 "footprint of set_language/set_locale from whole-program effect summaries; separators printed per locale are the tokens "
+                 "the parser expects in that locale.",
         "note": "Does not decide that values of locale-independent functions are unchanged (needs evaluation). The stored-text "
                 "table {shared_formulas: R1C1/default, DefinedName.formula: A1/default} is the repo's own documented convention. " + TRUST,
         "technique": "typestate dataflow over the CFG (set_* transitions) + provenance of parse arguments + effect summaries",
